@@ -465,6 +465,146 @@ class HintVal(SVal):
         self.t = t
 
 
+# ---- add_const_fields (C12: the constant a class declares is the one its instances carry — also built without validation) ----
+FieldS = z3.DeclareSort("ModelField")
+INFER = z3.Function("ModelField_infer", z3.StringSort(), ConstV, FieldS)  # T5: the pydantic field with that name and that default value (type Optional[Any])
+F_TYPE = z3.Function("field_type", FieldS, Hint)
+IS_ENUM = z3.Function("is_enum_type", Hint, z3.BoolSort())
+IS_LIT = z3.Function("is_literal_type", Hint, z3.BoolSort())
+VALID_ENUM = z3.Function("value_is_member_of_enum", ConstV, Hint, z3.BoolSort())
+VALID_LIT = z3.Function("literal_of_value_is_subtype", ConstV, Hint, z3.BoolSort())
+
+
+class TField:
+    def sort(self):
+        return FieldS
+
+    def wrap(self, t):
+        return FieldVal(t)
+
+    def unwrap(self, cx, v):
+        if isinstance(v, FieldVal):
+            return v.t
+        raise Unsupported("not a model field")
+
+
+class FieldVal(SVal):
+    def __init__(self, t):
+        self.t = t
+
+    def py_truth(self, cx):
+        return True
+
+    def py_getattr(self, cx, name):
+        if name == "type_":
+            return HintVal(F_TYPE(self.t))
+        raise Unsupported("field attribute " + name)
+
+
+class AddConstFields(FnSpec):
+    file = "schema/decorators.py"
+    qual = "add_const_fields.<locals>.add_fields"
+    props = ("C12",)
+
+    def init(self):
+        self.bindings["_expect_schema_class"] = lambda cx, m: None
+        self.bindings["is_enum"] = lambda cx, h: SBool(IS_ENUM(h.t))
+        self.bindings["is_literal"] = lambda cx, h: SBool(IS_LIT(h.t))
+        self.bindings["isinstance"] = lambda cx, v, h: SBool(VALID_ENUM(v.t, h.t)) if isinstance(h, HintVal) else (_ for _ in ()).throw(Unsupported("isinstance"))
+        self.bindings["Literal"] = LiteralNS()
+        self.bindings["is_subtype"] = lambda cx, lit, h: SBool(VALID_LIT(lit.v, h.t))
+        self.bindings["Optional"] = SubscriptAny()
+        self.bindings["Any"] = "Any"
+        self.bindings["ModelField"] = ModelFieldNS()
+        self.bindings["set"] = lambda cx, *a: SSet(STR) if not a else (_ for _ in ()).throw(Unsupported("set(x)"))
+
+        def inv(cx, env, it):
+            a = cx.ghost["acf"]
+            m = a.mcls
+            F, AN = m.fields["__fields__"], m.fields["__annotations__"]
+            k = z3.String(fresh_name("ik"))
+            done = z3.Select(it.processed, k)
+            return [
+                ("processed-names-carry-the-new-constant", z3.ForAll([k], z3.Implies(done, z3.And(F.has(k), F.get_term(k) == INFER(k, a.consts0.get_term(k)), AN.has(k), AN.get_term(k) == F_TYPE(INFER(k, a.consts0.get_term(k))))))),
+                ("other-fields-as-before", z3.ForAll([k], z3.Implies(z3.Not(done), z3.And(F.has(k) == a.f0.has(k), F.get_term(k) == a.f0.get_term(k), AN.has(k) == a.an0.has(k), AN.get_term(k) == a.an0.get_term(k))))),
+                ("constants-not-yet-touched", m.fields["__constants__"].same(cx, a.c0)),
+                ("input-not-modified", a.consts_live.same(cx, a.consts0)),
+                ("no-processed-name-needed-refusal", z3.ForAll([k], z3.Implies(done, z3.Not(self.refused(a, k))))),
+            ]
+
+        self.loops[0] = LoopSpec(inv, modifies=["name", "value", "field_def", "enum_specialization", "literal_specialization", "valid_specialization", "lit_const", "msg", "ctype", "field", "overridden"], havoc_inplace=["mcls.__fields__", "mcls.__annotations__"])
+
+    def setup(self, cx):
+        m = ClsObj("SchemaCls", name="mcls")
+        m.fields["__name__"] = "Schema"
+        m.fields["__fields__"] = SMap.fresh(STR, TField(), "fields")
+        m.fields["__annotations__"] = SMap.fresh(STR, THint(), "annotations")
+        m.fields["__constants__"] = SMap.fresh(STR, TConst(), "constants")
+        m.fields["__config__"] = "config"
+        consts = SMap.fresh(STR, TConst(), "consts")
+        self.bindings["consts"] = consts
+        self.bindings["override"] = SBool(z3.Bool("override"))
+        a = A(mcls=m)
+        a.consts_live = consts
+        a.consts0, a.f0, a.an0, a.c0 = consts.snapshot(), m.fields["__fields__"].snapshot(), m.fields["__annotations__"].snapshot(), m.fields["__constants__"].snapshot()
+        cx.ghost["acf"] = a
+        return a
+
+    raises_exact = False  # WHICH name trips first depends on the iteration order: a raise is justified below, and a normal return means no name needed refusal (ensures)
+
+    @staticmethod
+    def _conds(a, k):
+        has = z3.And(a.consts0.has(k), a.f0.has(k))
+        t = F_TYPE(a.f0.get_term(k))
+        v = a.consts0.get_term(k)
+        bad_special = z3.Or(z3.And(IS_ENUM(t), z3.Not(VALID_ENUM(v, t))), z3.And(z3.Not(IS_ENUM(t)), IS_LIT(t), z3.Not(VALID_LIT(v, t))))
+        plain = z3.And(z3.Not(z3.Bool("override")), z3.Not(IS_ENUM(t)), z3.Not(IS_LIT(t)))
+        return has, bad_special, plain
+
+    def refused(self, a, k):
+        has, bad_special, plain = self._conds(a, k)
+        return z3.And(has, z3.Or(bad_special, plain))
+
+    def raises(self, cx, a):
+        k = z3.String(fresh_name("rk"))
+        has, bad_special, plain = self._conds(a, k)
+        return {"TypeError": z3.Exists([k], z3.And(has, bad_special)), "ValueError": z3.Exists([k], z3.And(has, plain))}
+
+    def ensures(self, cx, a, res):
+        m = a.mcls
+        F, C = m.fields["__fields__"], m.fields["__constants__"]
+        k = z3.String(fresh_name("ek"))
+        return [
+            ("every-declared-constant-is-the-field-default", z3.ForAll([k], z3.Implies(a.consts0.has(k), z3.And(F.has(k), F.get_term(k) == INFER(k, a.consts0.get_term(k))))), "for EVERY name in the decorator's dict — also one that overrides an inherited constant — the class's pydantic field is re-created with the NEW value as default, so instances built without validation (construct()) carry it too"),
+            ("every-declared-constant-is-recorded", z3.ForAll([k], z3.Implies(a.consts0.has(k), z3.And(C.has(k), C.get_term(k) == a.consts0.get_term(k)))), "... and recorded in __constants__ (what the pre-validator forces on parsed input)"),
+            ("other-fields-and-constants-untouched", z3.ForAll([k], z3.Implies(z3.Not(a.consts0.has(k)), z3.And(F.has(k) == a.f0.has(k), F.get_term(k) == a.f0.get_term(k), C.has(k) == a.c0.has(k), C.get_term(k) == a.c0.get_term(k)))), "nothing else of the class changes"),
+            ("returns-the-class", z3.BoolVal(res is m), "usable as a decorator"),
+            ("accepted-only-if-no-name-needed-refusal", z3.ForAll([k], z3.Implies(a.consts0.has(k), z3.Not(self.refused(a, k)))), "an existing field is only replaced when override=True, or when it is an enum/literal field and the constant is one of its values; anything else is refused (TypeError / ValueError)"),
+        ]
+
+
+class LitVal(SVal):
+    def __init__(self, v):
+        self.v = v
+
+
+class LiteralNS(SVal):
+    def py_getitem(self, cx, v):
+        return LitVal(v.t)
+
+
+class SubscriptAny(SVal):
+    def py_getitem(self, cx, v):
+        return "Optional[Any]"
+
+
+class ModelFieldNS(SVal):
+    def meth_infer(self, cx, **kw):
+        if set(kw) != {"name", "value", "annotation", "class_validators", "config"} or kw["annotation"] != "Optional[Any]" or kw["class_validators"] is not None:
+            raise Unsupported("ModelField.infer with other arguments")
+        return FieldVal(INFER(kw["name"].t, kw["value"].t))
+
+
 def schema_cls(cx):
     sch = ClsObj("SchemaCls", name="schema")
     sch.fields["__name__"] = "Schema"
@@ -969,7 +1109,7 @@ def build_c12(reg):
     reg.method_bindings[("BaseModelPlus", "super.dict")] = lambda cx, obj, *a, **k: (cx.effect("super-dict", a, k), "pydantic-dict")[1]
     reg.method_bindings[("BaseModelPlus", "super.json")] = lambda cx, obj, *a, **k: (cx.effect("super-json", a, k), "pydantic-json")[1]
     reg.method_bindings[("BaseModelPlusObj", "json")] = lambda cx, obj, *a, **k: (cx.effect("json", a, k), JsonStr(JSON_TEXT))[1]
-    specs = [SchemaMagicInit(), DynEncoderInit(), WrappedEncoder(), ModDefDumpArgs(), ParseRaw(), ToBytes(), DictSpec(), JsonSpec(), OverrideConsts()]
+    specs = [SchemaMagicInit(), DynEncoderInit(), WrappedEncoder(), ModDefDumpArgs(), ParseRaw(), ToBytes(), DictSpec(), JsonSpec(), OverrideConsts(), AddConstFields()]
     for s in specs:
         reg.add(s)
     return specs
